@@ -61,7 +61,7 @@ if not ok:
 import fcntl
 lockf = open('/tmp/repo.lock', 'w')
 fcntl.flock(lockf, fcntl.LOCK_EX)
-st, _ = sh('git -C /repo status --porcelain')
+_, st = sh('git -C /repo status --porcelain')
 assert st.strip() == '', '/repo is not clean: ' + st
 rc, out = sh('git -C /repo apply %s' % patch)
 assert rc == 0, out
